@@ -23,6 +23,8 @@ CELLS = [
     (7.0, 8.0, 9.0, 81.0, 97.0, 104.0),
     (5.1, 11.3, 23.7, 60.0, 65.0, 115.0),
     (7.78, 7.78, 7.78, 113.1, 113.1, 113.1),
+    (7.00004, 8.99996, 40.0003, 90.0006, 89.9995, 119.9994),   # pseudo-symmetric: every parameter a hair off a special value
+    (6.0, 7.0, 8.0, 90.0, 90.0001, 90.0),                      # a monoclinic cell 1e-4 degrees off orthogonal
     (7.0, 7.0, 9.0, 90.0, 90.0, 120.0),
 ]
 
